@@ -46,6 +46,9 @@ JSmallOK(h) == QNorm(h) <= 2000
 (* "for every x with rotation angle below 2 pi": the last hundredths of a radian before the full turn, where the inverse
    Jacobians grow like 1/(2 pi - theta) (theta = 2 pi - 2 atan(|v|/m) = 2 pi - 0.02 .. 0.033) *)
 JNearTurn == { <<-100,1,0,0>>, <<-60,0,0,1>>, <<-200,1,2,2>>, <<-300,-1,1,1>> }
+(* the last 1e-4 rad (so(3) only: the closed forms are exact there; the se(3) / se_2(3) coupling blocks have a double pole and
+   lose more than the 1e-9 tolerance to rounding that close to 2 pi on ANY implementation) *)
+JNearTurnFine == { <<-20000,1,0,0>>, <<-15000,0,1,-1>>, <<-9000,1,0,0>> }
 (* "arbitrary translational parts": the coupling blocks Q of the se(3) / se_2(3) Jacobians and of their inverses are LINEAR
    in the translational part (the dexp equations are, block by block), so J(s rho, w) has the diagonal blocks of J(rho, w)
    and s times its coupling blocks; the harness evaluates every general vector a second time with s = 4e-7 (micrometres
@@ -55,9 +58,14 @@ GW == { <<1,0,0>>, <<0,1,0>>, <<0,0,1>>, <<1,-2,2>>, <<-3,1,1>> }
 
 InitJ == /\ dummy = 0
          /\ \/ \E h \in (HAll \ HNearPole) \cup JNearTurn : nOf(h) # 0 /\ tv = [op |-> "seedj", h |-> h]      \* (near-pole quaternions: 32-bit)
+            \/ \E h \in JNearTurnFine : tv = [op |-> "seedj3", h |-> h]
             \/ \E q \in GQ : tv = [op |-> "seedg", q |-> q]
             \/ tv = [op |-> "seedz"]
 NextJ == UNCHANGED dummy /\
+  \/ /\ tv.op = "seedj3"
+     /\ LET h == tv.h IN
+        tv' = [op |-> "jac_so3", h |-> h, cell |-> "nearturn", nV0 |-> nV0(h), NV1 |-> NV1(h), NV1r |-> NV1r(h),
+               W1 |-> W1x2n(h), W1r |-> W1rx2n(h), n |-> nOf(h), N |-> QNorm(h)]
   \/ /\ tv.op = "seedj"
      /\ LET h == tv.h cell == HCell(tv.h) IN
         \/ tv' = [op |-> "jac_so3", h |-> h, cell |-> cell, nV0 |-> nV0(h), NV1 |-> NV1(h), NV1r |-> NV1r(h),
